@@ -717,6 +717,10 @@ func extractC15(c *ctxT) {
 	c.facts["C15.genesisCustom"] = frows
 	_ = strconv.Itoa
 
+	qAct, qConv := c15QueueKeys(c, kdir, adir)
+	boolean("activationQueueKeyIsVotingEnd", "ActivateVotingPeriod: the single ActiveProposalsQueue.Set uses collections.Join(*proposal.VotingEndTime, proposal.Id), after `proposal.VotingEndTime = &endTime`", qAct)
+	boolean("conversionQueueKeyIsVotingEnd", "EndBlocker, `case proposal.Expedited:` — the single ActiveProposalsQueue.Set uses collections.Join(*proposal.VotingEndTime, proposal.Id), after `proposal.VotingEndTime = &endTime`", qConv)
+
 	steps := c15DepositSteps(c, kdir)
 	b.WriteString("/-- x/gov/keeper/deposit.go AddDeposit: its top-level statements in source order (error checks skipped) -/\n")
 	b.WriteString("def addDepositSteps : List String := [\n")
